@@ -351,6 +351,102 @@ class C20Executor(Executor):
             return [(st, self._cache_hit(st, idx))]
         return self._get_index_sym(st, base, idx, node)
 
+    # ---- comprehension == loop: a comprehension / generator expression with one `for` over a sequence of SYMBOLIC length is
+    #      the sequence of its elements: element j is the element expression evaluated with the target bound to item j.  The
+    #      expression is evaluated ONCE for a fresh index k (0 <= k < len); VCs it emits hold for every k; facts it assumes
+    #      (callee postconditions) are kept universally quantified over k; it must be pure (no heap effect, no fork).
+    def _subst(self, v, k, j):
+        sub = lambda t: z3.substitute(t, (k, j))
+        if isinstance(v, VInt):
+            return VInt(sub(v.t))
+        if isinstance(v, VBool):
+            return VBool(sub(v.t))
+        if isinstance(v, VBytes):
+            return VBytes([self._subst(x, k, j) for x in v.items])
+        if isinstance(v, VTuple):
+            return VTuple([self._subst(x, k, j) for x in v.items])
+        if self._is_symb(v):
+            return symbytes(sub(v.tag[1]), sub(v.tag[2]))
+        if isinstance(v, VExt) and v.t is not None:
+            return VExt(v.sort, sub(v.t))
+        raise Unsupported(f"comprehension element of kind {type(v).__name__} over a symbolic sequence")
+
+    def _sym_comp(self, n, st):
+        import ast as _ast
+        if len(n.generators) != 1 or n.generators[0].ifs or n.generators[0].is_async:
+            return None
+        g = n.generators[0]
+        its = self.ev(g.iter, st)
+        if len(its) != 1:
+            return None
+        s1, it = its[0]
+        if self.concrete_items(s1, it) is not None or not isinstance(it, VSeq):
+            return ("plain", s1, it)
+        k = z3.Int(fresh_name("k!comp"))
+        rng = z3.And(k >= 0, k < it.length)
+        s2 = s1.fork()
+        s2.assume(rng)
+        base_pc = len(s2.pc)
+        bound = self.assign(g.target, it.elem(k), s2)
+        if len(bound) != 1:
+            raise Unsupported(f"{self.loc(n)} comprehension target forks")
+        outs = self.ev(n.elt, bound[0])
+        if len(outs) != 1:
+            raise Unsupported(f"{self.loc(n)} comprehension element forks over a symbolic sequence")
+        s3, v = outs[0]
+        if any(s3.heap.get(r) is not o for r, o in s1.heap.items()) or len(s3.heap) != len(s1.heap):
+            raise Unsupported(f"{self.loc(n)} comprehension element with a heap effect over a symbolic sequence")
+        facts = s3.pc[base_pc:]
+        if facts:
+            s1.assume(z3.ForAll([k], z3.Implies(rng, z3.And(facts))))
+        self._subst(v, k, k)      # kind check now (raises Unsupported)
+        return ("sym", s1, VSeq(it.length, lambda j, v=v, k=k: self._subst(v, k, j), "comp"))
+
+    def e_GeneratorExp(self, n, st):
+        r = self._sym_comp(n, st)
+        if r is not None and r[0] == "sym":
+            return [(r[1], r[2])]
+        return super().e_GeneratorExp(n, st)
+
+    def e_ListComp(self, n, st):
+        r = self._sym_comp(n, st)
+        if r is not None and r[0] == "sym":
+            return [(r[1], r[2])]
+        return super().e_ListComp(n, st)
+
+    def b_all(self, st, args, kwargs, node):
+        v = args[0]
+        if isinstance(v, VSeq) and self.concrete_items(st, v) is None:
+            j = z3.Int(fresh_name("j!all"))
+            return [(st, VBool(z3.ForAll([j], z3.Implies(z3.And(j >= 0, j < v.length), self.truth(st, v.elem(j)).t))))]
+        return super().b_all(st, args, kwargs, node)
+
+    def b_any(self, st, args, kwargs, node):
+        v = args[0]
+        if isinstance(v, VSeq) and self.concrete_items(st, v) is None:
+            j = z3.Int(fresh_name("j!any"))
+            return [(st, VBool(z3.Exists([j], z3.And(j >= 0, j < v.length, self.truth(st, v.elem(j)).t))))]
+        return super().b_any(st, args, kwargs, node)
+
+    def _join_blocks(self, st, seq, node):
+        """b"".join(<sequence of symbolic length whose elements are byte strings of one constant length L>)"""
+        probe = seq.elem(z3.Int(fresh_name("j!probe")))
+        if not isinstance(probe, VBytes) or not probe.items:
+            raise Unsupported(f"{self.loc(node)} join of a symbolic sequence whose elements are not fixed-length byte strings")
+        L = len(probe.items)
+        x = z3.Int(fresh_name("x!join"))
+        items = seq.elem(x / L).items
+        body = byte_t(items[L - 1])
+        for t in range(L - 2, -1, -1):
+            body = z3.If(x % L == t, byte_t(items[t]), body)
+        return symbytes(z3.simplify(L * seq.length), z3.Lambda([x], body))
+
+    def bytes_method(self, st, obj, name, args, kwargs, node):
+        if name == "join" and isinstance(obj, VBytes) and not obj.items and len(args) == 1 and isinstance(args[0], VSeq) \
+                and self.concrete_items(st, args[0]) is None:
+            return [(st, self._join_blocks(st, args[0], node))]
+        return super().bytes_method(st, obj, name, args, kwargs, node)
+
     def truth(self, st, v):
         if isinstance(v, VExt) and v.sort == "RoundKeys":
             return VBool(True)
